@@ -26,7 +26,7 @@ CLAIMED = {
    note="The model is a second implementation (disagreements are triaged against the property text first); version ids are only required to be strictly increasing, the actual ids are adopted by the model.",
    technique="reference-model monitor (differential testing against a sequential spec)"),
  "C13": dict(engine="kvmodel", level="exploration",
-   text="Protobuf-level hostile WriteRequests from a fixed feature table are sent to an RF=1 leader; a request either is refused before it reaches the log (InvalidArgument and the WAL did not grow) or must yield a per-operation status; afterwards the node must restart and lead again without its term regressing, a fresh replica must be able to apply the whole log, and the notification stream must be readable. After an apply error the node is examined, replaced, and the sequence continues, so one finding does not mask the following features.",
+   text="Protobuf-level hostile WriteRequests from a fixed feature table are sent to an RF=1 leader; a request either is refused before it reaches the log (InvalidArgument and the WAL did not grow) or must yield a per-operation status; afterwards the node must restart and lead again without its term regressing, a fresh replica must be able to apply the whole log, and the notification stream must be readable. The table includes overwrites of an indexed record with fewer, more, repeated or no index entries, in one request. After an apply error the node is examined, replaced, and the sequence continues, so one finding does not mask the following features.",
    note="Goes through LeaderController.WriteBlock, the entry point the public RPC server calls for every client write.",
    technique="hostile-input fault injection + total-function oracle (no error / no panic / restartable / replayable)"),
  "C15": dict(engine="kvmodel", level="exploration",
@@ -46,15 +46,15 @@ CLAIMED = {
    note="Pebble's own correctness for a coherent comparer is trusted; empty probe keys are skipped for comparison gets (an empty bound means unbounded for the engine iterators).",
    technique="algebraic law checking on generated tuples + differential test of the engine against a sorted reference"),
  "C08": dict(engine="repl", level="exploration",
-   text="Real leader and follower controllers wired by harness-owned in-memory streams: 2..32 concurrent writers (WriteBlock and Write callbacks) with RF 1/2/3/5, a yield/sleep hook between offset allocation and WAL append, per-link ack delays and a cursor cut/re-attach; hook and stream monitors check every write succeeds, own-response (version id read back), contiguous distinct WAL entries, consecutive apply offsets, commit monotone <= head and never beyond what RF/2 followers acknowledged for the whole prefix, commit == head at quiescence; runs under the race detector. The quorum tracker is additionally driven directly against a three-line model.",
+   text="Real leader and follower controllers wired by harness-owned in-memory streams: 2..32 concurrent writers (WriteBlock and Write callbacks) with RF 1/2/3/5, a yield/sleep hook between offset allocation and WAL append, per-link ack delays and a cursor cut/re-attach; hook and stream monitors check every write succeeds, own-response (version id read back), contiguous distinct WAL entries, consecutive apply offsets, commit monotone <= head and never beyond what RF/2 followers acknowledged for the whole prefix, commit == head at quiescence; runs under the race detector. The quorum tracker is additionally driven directly against a three-line model (incl. acks ahead of the head). A third part (C08.stream, engine client) runs a real standalone server on loopback gRPC and pipelines raw WriteStream requests whose answers are recognisable: the i-th answer of a stream must belong to its i-th request, version ids increase along a stream.",
    note="'All succeed' is restated as: every write returns OK before a generous watchdog while the quorum is healthy (watchdog => inconclusive, error => violation).",
    technique="invariant monitors on hooks and on the replication streams under concurrent stress + race detector + component model check"),
  "C03": dict(engine="repl", level="exploration",
-   text="Seeded schedules on 3 or 5 real nodes (through the real ShardsDirector, harness-owned replication streams, the harness as coordinator): write bursts, stalled/delayed/cut links with re-delivery, restarts, wipes with snapshot install at several chunk sizes, leaders deposed with an unreplicated tail, elections with random majority fence sets. At every ack, in the follower's goroutine before the ack leaves, the follower's synced log is compared with the leader's at the newly acknowledged offsets; every database instance's applied offsets must be consecutive; at quiescence logs up to the commit offset and decoded DB dumps of replicas at the same commit offset must be identical. Runs under the race detector.",
+   text="Seeded schedules on 3 or 5 real nodes (through the real ShardsDirector, harness-owned replication streams, the harness as coordinator): write bursts, stalled/delayed/cut links with re-delivery, restarts, wipes with snapshot install at several chunk sizes, leaders deposed with an unreplicated tail, elections with random majority fence sets. At every ack, in the follower's goroutine before the ack leaves, the follower's synced log is compared with the leader's at the newly acknowledged offsets; a re-delivered Truncate of the current term must not cut entries the follower acknowledged in that term; the first acknowledgement of a stream after a snapshot install must find the follower's log beginning no later than the offset after the snapshot; every database instance's applied offsets must be consecutive (the first apply of an instance against the commit offset it stored); at quiescence logs up to the commit offset and decoded DB dumps of replicas at the same commit offset must be identical. Runs under the race detector.",
    note="The leader's log is the reference for its own term; a wiped node does not count towards a fencing quorum until it has caught up ('a majority keeps its disk'); nodes that AddFollower refuses for good are given an empty disk by the harness (availability matter, see DESIGN.md). Known protocol-level findings are classified by the shape of the divergence so that other divergences are still reported.",
    technique="online invariant monitor at the ack hook + offline replica comparison at quiescence under fault injection + race detector"),
  "C04": dict(engine="repl", level="exploration",
-   text="The C03 schedules with fences placed inside fire-and-forget write bursts while hooks delay the follower's sync goroutine and the writers. After every NewTerm answer the node's synced AND appended log end must equal the reported head and stay equal while polled, a client write must be refused, stale Truncate/BecomeLeader/AddFollower of the previous term must be refused and change nothing, and no ack above the reported head may leave on a stream of an older term.",
+   text="The C03 schedules with fences placed inside fire-and-forget write bursts while hooks delay the follower's sync goroutine and the writers. After every NewTerm answer the node's synced AND appended log end must equal the reported head and stay equal while polled, a client write must be refused, stale Truncate/BecomeLeader/AddFollower of the previous term must be refused and change nothing, no ack above the reported head may leave on a stream of an older term, and a write that was in flight when the leader was fenced may not be acknowledged to its client after the fence was answered unless it was committed before (a racing client writes during every fence, with holds of 5-20 ms at the WAL hand-off).",
    note="'Never again' is checked up to the end of each finite run; acks at or below the reported head that leave after the answer are not counted as progress (the entries are part of the reported log).",
    technique="invariant monitor over hook and stream events with hook-widened fence windows + race detector"),
  "C06": dict(engine="repl", level="exploration",
@@ -91,8 +91,8 @@ NOT_APPLICABLE = {}
 DEFAULT_NA = "check not built yet in this session (work in progress)"
 
 ENGINES = [
- {"name": "client", "path": "harness/engines/client", "serves_properties": ["C18", "C20"],
-  "kind_free_text": "real public client library over loopback gRPC against a deterministic fake OxiaClient service (lib/fakeoxia)"},
+ {"name": "client", "path": "harness/engines/client", "serves_properties": ["C08", "C18", "C20"],
+  "kind_free_text": "real public client library over loopback gRPC against a deterministic fake OxiaClient service (lib/fakeoxia); raw gRPC write streams against a real standalone server (C08.stream)"},
  {"name": "coord", "path": "harness/engines/coord", "serves_properties": ["C01", "C02", "C05"],
   "kind_free_text": "real coordinator ShardController + StatusResource over harness-owned metadata store and coordination RPCs (lib/ctl), real storage nodes (lib/replcluster); real file metadata provider under concurrent observers"},
  {"name": "repl", "path": "harness/engines/repl", "serves_properties": ["C03", "C04", "C06", "C07", "C08", "C17"],
